@@ -271,13 +271,43 @@ type ConcCase struct {
 	Prefix   []Op              `json:"prefix"`
 	Par      []Op              `json:"par"`
 	Schedule []string          `json:"schedule,omitempty"` // replay: exact choices
+	// Extra ledgers besides l1 (bucket b1); Target is the ledger the concurrent line is about (default l1)
+	Extra  []CaseLedger `json:"extra,omitempty"`
+	Target string       `json:"target,omitempty"`
+}
+
+func (c ConcCase) ledgerNames() []string {
+	out := []string{"l1"}
+	for _, e := range c.Extra {
+		out = append(out, e.Name)
+	}
+	return out
+}
+
+func (c ConcCase) target() string {
+	if c.Target != "" {
+		return c.Target
+	}
+	return "l1"
+}
+
+func observeMany(env *Env, names []string) (map[string]LedgerObs, error) {
+	st := map[string]LedgerObs{}
+	for _, n := range names {
+		o, err := env.Observe(n)
+		if err != nil {
+			return nil, err
+		}
+		st[n] = o
+	}
+	return st, nil
 }
 
 // ConcResult of one schedule.
 type ConcResult struct {
 	Ress     []Res      `json:"ress"`
 	CSeq     []int      `json:"cseq"` // commit order of each parallel op (0 = did not commit)
-	Post     LedgerObs  `json:"post"`
+	Post     map[string]LedgerObs `json:"post"`
 	Log      []Decision `json:"log"`
 	Preempt  int        `json:"preempt"`
 	Chain    []int      `json:"chain"` // for each log (id order): id of the log whose hash it chains from (-1 none/unknown)
@@ -304,11 +334,17 @@ func PrepareConc(c ConcCase) (*ConcBase, error) {
 	if err := env.CreateLedger("l1", "b1", c.Features); err != nil {
 		return nil, &Inconclusive{Msg: err.Error()}
 	}
-	st0, err := env.Observe("l1")
+	for _, e := range c.Extra {
+		if err := env.CreateLedger(e.Name, e.Bucket, e.Features); err != nil {
+			return nil, &Inconclusive{Msg: err.Error()}
+		}
+	}
+	names := c.ledgerNames()
+	st0, err := observeMany(env, names)
 	if err != nil {
 		return nil, obsFailure(env, err)
 	}
-	reset := Line{Case: c.N, Reset: true, St: map[string]LedgerObs{"l1": st0}, Ev: []EvObs{}}
+	reset := Line{Case: c.N, Reset: true, St: st0, Ev: []EvObs{}}
 	reset.Op.Norm()
 	lines := []Line{reset}
 	ctx := context.Background()
@@ -320,11 +356,11 @@ func PrepareConc(c ConcCase) (*ConcBase, error) {
 		for j := range evs {
 			evs[j].AfterCm = true // not examined for the prefix
 		}
-		st, err := env.Observe("l1")
+		st, err := observeMany(env, names)
 		if err != nil {
 			return nil, obsFailure(env, err)
 		}
-		lines = append(lines, Line{Case: c.N, Op: op, Res: res, St: map[string]LedgerObs{"l1": st}, Ev: evs})
+		lines = append(lines, Line{Case: c.N, Op: op, Res: res, St: st, Ev: evs})
 		now = op.Now
 	}
 	if u := env.PG.UnsupportedSeen(); len(u) > 0 {
@@ -398,12 +434,12 @@ func (b *ConcBase) RunSchedule(prefix []string) (*ConcResult, error) {
 	for rank, x := range cs {
 		res.CSeq[x.i] = rank + 1
 	}
-	post, err := env.Observe("l1")
+	post, err := observeMany(env, b.Case.ledgerNames())
 	if err != nil {
 		return res, obsFailure(env, err)
 	}
 	res.Post = post
-	res.Chain = chainOf(post.Logs)
+	res.Chain = chainOf(post[b.Case.target()].Logs)
 	if u := env.PG.UnsupportedSeen(); len(u) > 0 {
 		return res, &Inconclusive{Msg: fmt.Sprintf("unsupported SQL in pgmodel: %v", u)}
 	}
